@@ -32,7 +32,7 @@ pub const ENTRY_POINTS: [(&str, Op); 12] = [
     ("ProofCommitmentChallenge::new", Op::ChallengeNew),
     ("BlsSignature::new_proof_challenge", Op::ChallengeNewViaBls),
 ];
-const MODES: [&str; 4] = ["sequence", "threads", "incarnations", "seeds"];
+const MODES: [&str; 5] = ["sequence", "threads", "incarnations", "seeds", "mixed"];
 
 struct Fixture {
     sk: Vec<u8>,
@@ -106,6 +106,44 @@ pub fn call_once(rec: &mut Rec, lib: &dyn Lib, g: Grp, op: Op, fx: &Fixture) -> 
     })
 }
 
+thread_local! {
+    /// ephemerals seen in earlier runs on this worker thread (same process): digest -> seed of the run that produced it.
+    /// "Across any sequence of calls in one process": state a library keeps per thread survives from one run to the next.
+    static SEEN_BEFORE: std::cell::RefCell<HashMap<(u64, Vec<u8>), u64>> = std::cell::RefCell::new(HashMap::new());
+}
+
+/// compare this run's ephemerals with those of earlier runs on the same thread that had ANOTHER seed
+fn check_against_earlier_runs(rec: &mut Rec, name: &str, g: Grp, seed: u64, all: &[(usize, usize, Vec<(&'static str, Vec<u8>)>)]) {
+    let mut hit: Option<String> = None;
+    SEEN_BEFORE.with(|m| {
+        let mut m = m.borrow_mut();
+        if m.len() > 400_000 {
+            m.clear();
+        }
+        for (lane, idx, eph) in all {
+            for (label, bytes) in eph {
+                if bytes.len() < 16 {
+                    continue;
+                }
+                let key = (bytes.len() as u64, bytes.clone());
+                match m.get(&key) {
+                    Some(s0) if *s0 != seed => {
+                        if hit.is_none() {
+                            hit = Some(format!("{} {} | g={}: {} of call (lane {}, #{}) of this run equals an ephemeral produced by an earlier run (seed {}) on the same thread: {}", name, label, g.name(), label, lane, idx, s0, short(bytes)));
+                        }
+                    }
+                    Some(_) => {}
+                    None => {
+                        m.insert(key, seed);
+                    }
+                }
+            }
+        }
+    });
+    rec.probe("compared-with-earlier-runs-on-this-thread");
+    rec.expect("C20", "ephemerals-never-repeat-across-runs", hit.is_none(), || hit.clone().unwrap());
+}
+
 fn check_distinct(rec: &mut Rec, what: &str, name: &str, mode: &str, g: Grp, all: &[(usize, usize, Vec<(&'static str, Vec<u8>)>)]) {
     // all: (lane, call index, ephemerals)
     let mut seen: HashMap<(&'static str, Vec<u8>), (usize, usize)> = HashMap::new();
@@ -148,7 +186,8 @@ impl Scenario for Entropy {
             }
             _ => {
                 let mi = ((index / (2 * ne)) % MODES.len() as u64) as usize;
-                p.set("n", n);
+                // one long call history per entry point (state that repeats only after many calls), shorter ones elsewhere
+                p.set("n", if MODES[mi] == "sequence" { n * 8 } else { n });
                 p.steps.push(Step::new(MODES[mi], &[]));
             }
         }
@@ -192,7 +231,29 @@ impl Scenario for Entropy {
                 }
                 rec.probe(if mode == "sequence" { "call-sequence-checked" } else { "incarnation-history-checked" });
                 check_distinct(rec, "across one call history", name, &mode, g, &all);
+                check_against_earlier_runs(rec, name, g, plan.seed, &all);
                 rec.sample(|| format!("{} g={} mode={} calls={} first ephemerals={:?}", name, g.name(), mode, all.len(), all.first().map(|x| x.2.iter().map(|(l, b)| format!("{}={}", l, short(b))).collect::<Vec<_>>())));
+            }
+            "mixed" => {
+                // all entry points interleaved on one thread; every exposed value is compared with every other of the
+                // same length, whatever entry point and field it came from (a secret must never reappear as a challenge)
+                let prev = seams::set_entropy(Some(Xo::derive(plan.seed, &[0xD43])));
+                let mut all: Vec<(usize, usize, Vec<(&'static str, Vec<u8>)>)> = vec![];
+                let rounds = (n / 8).max(4);
+                let start = plan.get("entry") as usize;
+                for r in 0..rounds {
+                    for k in 0..ENTRY_POINTS.len() {
+                        let (_, op2) = ENTRY_POINTS[(start + k) % ENTRY_POINTS.len()];
+                        if let Ok(e) = call_once(rec, lib, g, op2, &fx) {
+                            // same label for all: compare by bytes only
+                            all.push((k, r, e.into_iter().map(|(_, b)| ("value", b)).collect()));
+                        }
+                    }
+                }
+                seams::set_entropy(prev);
+                rec.probe("interleaved-entry-points-compared");
+                check_distinct(rec, "across interleaved entry points (lane = entry point)", "all entry points", &mode, g, &all);
+                check_against_earlier_runs(rec, "all entry points", g, plan.seed, &all);
             }
             "seeds" => {
                 let mut all = vec![];
